@@ -994,6 +994,9 @@ class Ctx:
             if m.group(2) == 'MAX':
                 return Int(b, s, (1 << (b - 1)) - 1 if s else (1 << b) - 1)
             return Int(b, s, -(1 << (b - 1)) if s else 0)
+        m = re.match(r'^\{alloc\d+: &(.*)\}$', text)
+        if m:
+            return Ref(Cell(Opaque('static', m.group(1))))
         if 'promoted[' in text:
             idx = text[text.rindex('promoted['):]
             owner = f.name
